@@ -12,18 +12,98 @@ ALPHABET = ['pause', 'play', 'kill', 'resume', 'complete', 'cancelfut', 'fail', 
 MONITORS = ['c04', 'c01']
 
 
-def _restored_kill_case(prog):
-    """every reachable live configuration includes one loaded from a checkpoint: kill() / future().cancel() must end it KILLED.
-    Returns (number of kills of restored processes, monitor failures, records); a record carries the lines for `pmodel pmr`
-    (program, history up to the checkpoint, `checkpoint`, the ops performed on the restored process) and the observation of the
-    real restored process after the restore and after each op."""
+def _after_restore(prog, bundle, how, delay, before=()):
+    """load `bundle` in a fresh event loop, run `delay` callbacks, perform the ops `before`, then kill() / cancel the future, and
+    run the loop dry.  -> None (the bundle cannot be loaded: C08's business) or dict(ops, obs, idle, tested, ok, detail)"""
     import asyncio
     import copy
     import harness.detloop as detloop
     import plumpy
+    from harness import pm
+    loop = detloop.DetLoop()
+    asyncio.set_event_loop(loop)
+    try:
+        p2 = copy.deepcopy(bundle).unbundle(plumpy.LoadSaveContext(loop=loop))
+    except Exception:  # noqa
+        loop.close()
+        return None
+    # the restored instance under the same observer as any other process of the process-control streams; the external futures of
+    # a work chain are the environment's (a bundle cannot carry them): the instance finds fresh pending ones
+    r2 = pm.Run(prog, process=p2, loop=loop)
+    r2.observe('none')
+    for _ in range(delay):
+        r2.tick()
+    for op in before:
+        if not p2.has_terminated():
+            r2.do(op)
+    tested, raised, ret = False, None, None
+    if not p2.has_terminated():
+        tested = True
+        if how == 'kill':
+            r2.do('kill')
+        else:
+            r2.do('cancelfut')
+            # the cancellation acts as a kill() made when the future's done-callbacks run, i.e. after the callbacks that were
+            # ready before it: a process that terminates by itself within those is under no obligation
+            for _ in range(60):
+                if not r2.tick() or r2.ops[-1] == 'tick trykill':
+                    break
+            if p2.has_terminated() and p2.state.value != 'killed':
+                tested = False
+        call = r2.calls[-1]
+        raised, ret = call['raised'], call['obj']
+    m = 0
+    while m < 500 and r2.tick():
+        m += 1
+    st = p2.state.value
+    if asyncio.isfuture(ret):
+        ret = ('pending' if not ret.done() else 'cancelled' if ret.cancelled() else 'exc' if ret.exception() is not None else ret.result())
+    ok = raised is None and (st == 'killed' or st == 'excepted') and (how != 'kill' or (ret is True) == (st == 'killed'))
+    res = dict(ops=list(r2.ops), obs=list(r2.obs), idle=m < 500, tested=tested, ok=ok,
+               detail=dict(how=how, callbacks_before=delay, ops_before=list(before), final=st, returned=str(ret), raised=raised, ops=list(r2.ops)))
+    r2.abandon() if not p2.has_terminated() else r2.close()
+    return res
+
+
+CLAUSE_RESTORED = ('from every reachable live configuration (here: loaded from a checkpoint) kill(), or cancelling the process\'s '
+                   'future, terminates the process')
+
+
+def _record(head, pre_ops, checkpoint_line, res, meta):
+    """the lines for `pmodel pmr` and what the real restored process showed: after the restore, after every op, and — once the real
+    loop has nothing left to run — that nothing is left scheduled in the model either"""
+    tail_ops, tail_obs = (['quiescent'], ['ready=']) if res['idle'] else ([], [])
+    return dict(lines=head + pre_ops + [checkpoint_line] + res['ops'] + tail_ops, skip=len(head) + len(pre_ops),
+                obs=res['obs'] + tail_obs, meta=meta)
+
+
+def _restored_kill_case(prog):
+    """every reachable live configuration includes one loaded from a checkpoint: kill() / future().cancel() must end it KILLED.
+    Returns (number of kills of restored processes, monitor failures, records); a record carries the lines for `pmodel pmr`
+    (program, history up to the checkpoint, the checkpoint, the ops performed on the restored process) and the observations of the
+    real restored process.
+    (a) a Bundle at every entered-state event of the uninterrupted run (inside the stepping task's callback), killed after 0..2
+        callbacks;
+    (b) a Bundle taken BETWEEN two callbacks after a pause() at any earlier position (so: processes checkpointed while paused, or
+        with the pause still pending inside a step), loaded, optionally played, killed after 0..1 callbacks."""
+    import copy
+    import plumpy
     from plumpy.base.state_machine import StateEventHook
     from harness import pm
     fails, records = [], []
+    head = pm.prog_lines(prog)
+    nfut = prog.get('nfut', 0)
+    n = 0
+
+    def account(res, label):
+        nonlocal n
+        if res['tested']:
+            n += 1
+            if not res['ok']:
+                fails.append(dict(signature=f"c04-restored-{res['detail']['how']}-lost", clause=CLAUSE_RESTORED,
+                                  detail=dict(checkpoint_state=label, **res['detail'])))
+
+    # (a)
     r = pm.Run(prog)
     r.p.remove_process_listener(r.lis)
     snaps = []
@@ -32,9 +112,8 @@ def _restored_kill_case(prog):
         if r.p.has_terminated():
             return
         try:
-            # (bundle, ops completed before the callback that is running, length of the ENTERED log, is it the stepping task's)
-            # the bundle AS STORED at that moment: held in memory it shares its mutable members (a work chain's context) with the
-            # instance, which keeps running here
+            # the bundle AS STORED at that moment (held in memory it shares its mutable members, e.g. a work chain's context, with
+            # the instance, which keeps running here); ops completed before the callback that is running; length of the ENTERED log
             snaps.append((r.p.state.value, copy.deepcopy(plumpy.Bundle(r.p)), len(r.ops), len(r.entered), r.in_stepper))
         except Exception:  # noqa  (whether every configuration can be checkpointed is C07's business)
             pass
@@ -44,66 +123,58 @@ def _restored_kill_case(prog):
             break
     r.finalize()
     r.close()
-    head = pm.prog_lines(prog)
-    n = 0
     for label, bundle, nops, k, in_stepper in snaps:
         for how in ('kill', 'cancel'):
             for delay in (0, 1, 2):
-                loop = detloop.DetLoop()
-                asyncio.set_event_loop(loop)
-                try:
-                    p2 = copy.deepcopy(bundle).unbundle(plumpy.LoadSaveContext(loop=loop))
-                except Exception:  # noqa  (C08's business)
-                    loop.close()
+                res = _after_restore(prog, bundle, how, delay)
+                if res is None:
                     continue
-                # the restored instance under the same observer as any other process of the process-control streams; the external
-                # futures of a work chain are the environment's (a bundle cannot carry them): the instance finds fresh pending ones
-                r2 = pm.Run(prog, process=p2, loop=loop)
-                r2.observe('none')
-                for _ in range(delay):
-                    r2.tick()
-                tested = False
-                if not p2.has_terminated():
-                    tested = True
-                    if how == 'kill':
-                        r2.do('kill')
-                    else:
-                        r2.do('cancelfut')
-                        # the cancellation acts as a kill() made when the future's done-callbacks run, i.e. after the callbacks
-                        # that were ready before it: a process that terminates by itself within those is under no obligation
-                        for _ in range(60):
-                            if not r2.tick() or r2.ops[-1] == 'tick trykill':
-                                break
-                        if p2.has_terminated() and p2.state.value != 'killed':
-                            tested = False
-                    call = r2.calls[-1]
-                    raised, ret = call['raised'], call['obj']
-                m = 0
-                while m < 500 and r2.tick():
-                    m += 1
+                account(res, label)
                 if in_stepper:
-                    # once the real loop has nothing left to run, nothing may be left scheduled in the model either
-                    tail_ops, tail_obs = (['quiescent'], ['ready=']) if m < 500 else ([], [])
-                    records.append(dict(lines=head + r.ops[:nops] + [f"checkpoint {k} {prog.get('nfut', 0)}"] + r2.ops + tail_ops,
-                                        skip=len(head) + nops, obs=list(r2.obs) + tail_obs,
-                                        meta=dict(checkpoint_state=label, checkpoint_entry=k, how=how, callbacks_before=delay)))
-                if tested:
-                    n += 1
-                    st = p2.state.value
-                    if asyncio.isfuture(ret):
-                        ret = ('pending' if not ret.done() else 'cancelled' if ret.cancelled() else
-                               'exc' if ret.exception() is not None else ret.result())
-                    ok = raised is None and (st == 'killed' or st == 'excepted') and (how != 'kill' or (ret is True) == (st == 'killed'))
-                    if not ok:
-                        fails.append(dict(signature=f'c04-restored-{how}-lost', clause='from every reachable live configuration (here: loaded from a '
-                                          'checkpoint) kill(), or cancelling the process\'s future, terminates the process',
-                                          detail=dict(checkpoint_state=label, how=how, callbacks_before=delay, final=st, returned=str(ret),
-                                                      raised=raised, ops=list(r2.ops))))
-                r2.close()
+                    records.append(_record(head, r.ops[:nops], f'checkpoint {k} {nfut}', res,
+                                           dict(checkpoint_state=label, checkpoint_entry=k, how=how, callbacks_before=delay)))
+    # (b)
+    npos = pm.n_positions(prog)
+    for j in range(npos):
+        for gap in (0, 1, 2):
+            r = pm.Run(prog)
+            r.p.remove_process_listener(r.lis)
+            for _ in range(j):
+                r.tick()
+            if r.p.has_terminated():
+                r.close()
+                break
+            r.do('pause')
+            for _ in range(gap):
+                r.tick()
+            bundle = None
+            if not r.p.has_terminated():
+                try:
+                    bundle = copy.deepcopy(plumpy.Bundle(r.p))
+                except Exception:  # noqa
+                    pass
+            label, pre_ops = r.p.state.value + ('+paused' if r.p.paused else ''), list(r.ops)
+            r.abandon()
+            if bundle is None:
+                continue
+            for how in ('kill', 'cancel'):
+                for delay in (0, 1):
+                    for before in ((), ('play',)):
+                        res = _after_restore(prog, bundle, how, delay, before)
+                        if res is None:
+                            continue
+                        account(res, label)
+                        records.append(_record(head, pre_ops, f'checkpointnow {nfut}', res,
+                                               dict(checkpoint_state=label, paused_at=j, callbacks_after_pause=gap, how=how,
+                                                    callbacks_before=delay, ops_before=list(before))))
     return n, fails, records
 
 
 def _restored_work(item):
+    import sys
+    # (pool worker of this stream only) a Bundle that holds live futures — a work chain waiting for them — cannot be copied (C07);
+    # the half-made copies of the attempt are finalised by the garbage collector, and what they print then says nothing about the run
+    sys.unraisablehook = lambda *a, **k: None
     name, prog = item
     n, fails, records = _restored_kill_case(prog)
     for f in fails:
